@@ -145,7 +145,9 @@ def check(ctx):
         ctx.require(K3, ends == [16] and any(a.endswith("RangeTo") for a, v in rng), c.where(), "the removed prefix is exactly the first 16 base64 characters = 12-byte SPKI prefix (found ..%s)" % ends, [KEYS + "::get_eddsa_jwk", "prefix"])
         x = arg_origins(c, 0, through=True)
         ctx.require(K3, any("public_key_to_pem" in z.name for z in x.calls), c.where(), "x is cut out of the key's own public PEM", [KEYS + "::get_eddsa_jwk", "source"])
-    reps = eb.calls_to("core::str::<impl str>::replace", "alloc::str::<impl str>::replace")
+    from .guards import body_family
+    efam = body_family(prog, KEYS + "::get_eddsa_jwk")      # the function, helpers inlined into it, and the closures they hand to adaptors
+    reps = [c for fb in efam for c in fb.calls_to("core::str::<impl str>::replace", "alloc::str::<impl str>::replace")]
     pairs = set()
     for c in reps:
         ch = []
@@ -154,8 +156,8 @@ def check(ctx):
             ch.append(str(cs_[0].get("char", cs_[0].get("str"))) if cs_ else "?")
         pairs.add(tuple(ch))
     ctx.require(K3, {("/", "_"), ("+", "-")} <= pairs, "%s:%s" % (eb.file, eb.line), "base64 -> base64url: '/'->'_' and '+'->'-' (found %s)" % sorted(pairs), [KEYS + "::get_eddsa_jwk", "url-alphabet"])
-    tr = eb.calls_to("core::str::<impl str>::trim_end_matches")
-    ctx.require(K3, any((eb.const_of(c.args[1]) or {}).get("char") == "=" for c in tr), "%s:%s" % (eb.file, eb.line), "padding '=' is removed", [KEYS + "::get_eddsa_jwk", "no-padding"])
+    tr = [c for fb in efam for c in fb.calls_to("core::str::<impl str>::trim_end_matches")]
+    ctx.require(K3, any((c.body.const_of(c.args[1]) or {}).get("char") == "=" for c in tr), "%s:%s" % (eb.file, eb.line), "padding '=' is removed", [KEYS + "::get_eddsa_jwk", "no-padding"])
 
     K4 = ctx.rule("K4", "algorithm tables: default, compatibility, dispatch, header text")
     ct.check_alg_tables(ctx, K4)
